@@ -121,6 +121,43 @@ try:
             except BaseException as ex:  # noqa: BLE001
                 b = 'raise %s' % type(ex).__name__
             out['results']['xml#3 | ' + sel] = [a, b]
+    if spec.get('markup3'):
+        # Beautiful Soup keeps ONE prefix map per document and passes that same dict on every call; a caller who re-binds a prefix in
+        # it (same keys, same length) must get answers for the new binding at once - nothing else is compiled in between
+        soup = bs4.BeautifulSoup(spec['markup3'], 'xml')
+        orig = dict(soup._namespaces)
+        for sel in ['html|b', 'xlink|*, html|b', '[xlink|href]', 'html|*:lang(de)']:
+            for pfx, uri in (('html', 'http://www.w3.org/1999/xhtml'), ('xlink', 'urn:not-xhtml'), ('html', 'http://www.w3.org/1999/xlink')):
+                try:
+                    soup._namespaces.clear()
+                    soup._namespaces.update(orig)
+                    a1 = lab3(soup.select(sel))
+                    soup._namespaces[pfx] = uri
+                    a2 = lab3(soup.select(sel))
+                    a = [a1, a2]
+                except BaseException as ex:  # noqa: BLE001
+                    a = 'raise %s' % type(ex).__name__
+                try:
+                    changed = dict(orig)
+                    changed[pfx] = uri
+                    b = [lab3(soupsieve.select(sel, soup, namespaces=dict(orig))), lab3(soupsieve.select(sel, soup, namespaces=changed))]
+                except BaseException as ex:  # noqa: BLE001
+                    b = 'raise %s' % type(ex).__name__
+                out['results']['xml#3 in-place %s=%s | %s' % (pfx, uri, sel)] = [a, b]
+    if spec.get('markup4'):
+        # processing instructions, CDATA and comments as the XML builder makes them (its own subclasses of the string classes),
+        # also before the root element
+        soup = bs4.BeautifulSoup(spec['markup4'], 'xml')
+        for sel in spec['selectors4']:
+            try:
+                a = [[x.name, x.get('id')] for x in soup.select(sel)]
+            except BaseException as ex:  # noqa: BLE001
+                a = 'raise %s' % type(ex).__name__
+            try:
+                b = [[x.name, x.get('id')] for x in soupsieve.select(sel, soup)]
+            except BaseException as ex:  # noqa: BLE001
+                b = 'raise %s' % type(ex).__name__
+            out['results']['xml#4 | ' + sel] = [a, b]
 except BaseException as ex:  # noqa: BLE001
     out['errors'].append('query phase -> %s: %s' % (type(ex).__name__, str(ex)[:200]))
 json.dump(out, open(sys.argv[2], 'w'))
